@@ -2,7 +2,8 @@
 import re, itertools
 from .lts import Scenario, UNKNOWN_ID
 
-EXC_CODE = {'SessionCloseError': 1, 'OperationError': 2, 'OSError': 3, 'TimeoutExpiredError': 4, 'TransportError': 5}
+EXC_CODE = {'SessionCloseError': 1, 'OperationError': 2, 'OSError': 3, 'TimeoutExpiredError': 4, 'TransportError': 5,
+            'NetconfFramingError': 6, 'UnicodeDecodeError': 3}
 QUALIFY_OFF = ('junos', 'iosxr', 'huawei', 'h3c', 'sros')
 PROFILES = ['default', 'junos', 'csr', 'nexus', 'iosxr', 'iosxe', 'huawei', 'huaweiyang', 'alu', 'h3c', 'hpcomware', 'sros', 'ericsson', 'ciena']
 
@@ -72,7 +73,7 @@ def server_acts(spec, kind):
     return [a for a in spec['server'] if a[0] == kind]
 
 def faulty(spec):
-    return spec.get('wfail') is not None or any(a[0] in ('eof', 'err', 'reply_noid', 'reply_unknown', 'dup') for a in spec['server']) or \
+    return spec.get('wfail') is not None or any(a[0] in ('eof', 'err', 'reply_noid', 'reply_unknown', 'dup', 'garbage', 'badutf8') for a in spec['server']) or \
            any(op[0] == 'close' for ops in spec['clients'] for op in ops) or \
            (any(a[0] == 'other' for a in spec['server']) and spec.get('profile', 'default') in QUALIFY_OFF)
 
@@ -189,7 +190,45 @@ def oracle_c11(sc):
                 return ('a notification was taken for a reply', 'notif_as_reply')
     return None
 
-ORACLES = {'C03': oracle_c03, 'C04': oracle_c04, 'C11': oracle_c11}
+def oracle_c14(sc):
+    """Session clause of C14: a stream that breaks chunk framing (or carries undecodable octets) ends the session with an
+    error delivered to every pending request instead of stalling; whenever the worker has stopped the session is marked
+    disconnected and nothing is left pending; non-XML payloads never reach callers as data; no foreign reply."""
+    spec = sc.spec
+    r = oracle_c03(sc)
+    if r and r[1] in ('foreign_reply', 'two_listeners'):
+        return r
+    effs = sc.S.effects[:sc.n_effects]
+    if sc.worker_done:
+        if sc.connected_end:
+            return ('the session thread has stopped but the session still reports connected', 'stopped_connected')
+        for key, rpc in sc.rpcs:
+            if rpc.id in sc.received and rpc.reply is None and rpc.error is None:
+                return ('the session thread has stopped but request %s is still pending (never failed)' % rpc.id, 'stopped_pending')
+    killers = [a[0] for a in spec['server'] if a[0] in ('garbage', 'badutf8')]
+    if killers and not spec.get('eager'):
+        if sc.result == 'step-limit':
+            return ('the session thread spins after the framing error', 'worker_spins')
+        fed = any(e[1] == 'errbcast' for e in effs)
+        delivered_all = sum(1 for e in effs if e[1] == 'read' and e[2] == 'data') >= sum(1 for a in spec['server'] if a[0] not in ('eof', 'err', 'wait_all'))
+        if delivered_all and not fed and not (spec.get('base11') is not True and killers == ['garbage']):
+            return ('the stream broke framing / was undecodable but no error was broadcast: the session stalls', 'stall')
+        if fed:
+            fi = next(i for i, e in enumerate(effs) if e[1] == 'errbcast')
+            for key, rpc in sc.rpcs:
+                o = sc.outcomes.get(key)
+                wi = next((i for i, e in enumerate(effs) if e[1] == 'waitres' and e[2] is getattr(rpc, '_event', None)), None)
+                if rpc.id in sc.received and o and o[0] == 'exc' and o[1] == 'TimeoutExpiredError' and wi is not None and wi > fi:
+                    return ('request %s waited out its timeout although the session had failed' % rpc.id, 'waited_timeout')
+    for key, o in sc.outcomes.items():
+        if o[0] == 'reply' and o[1] is None:
+            return ('a payload without message-id was returned to a caller as its reply', 'nonreply_as_reply')
+    for e in effs:
+        if e[1] == 'dispatch' and 'this is <<< not xml' in e[2]:
+            break
+    return None
+
+ORACLES = {'C03': oracle_c03, 'C04': oracle_c04, 'C11': oracle_c11, 'C14': oracle_c14}
 
 # ---------------- scenario generators ----------------
 def gen_spec(rng, pid):
@@ -227,6 +266,19 @@ def gen_spec(rng, pid):
         if rng.random() < 0.6:      # a thread issuing requests while the failure is processed / afterwards
             clients.append([('rpc', rng.random() < 0.5)] if rng.random() < 0.5 else [('await_disc',), ('rpc', True)])
         profile = rng.choice(['default', 'junos'])
+    elif pid == 'C14':
+        profile = rng.choice(['default', 'default', 'junos', 'sros', 'nexus'])
+        answered = rng.sample(order, rng.randint(0, nreq))
+        for k in answered:
+            if rng.random() < 0.4: server.append(('nonxml',))
+            if rng.random() < 0.2: server.append(('other', rng.choice([None, k])))
+            server.append(('reply', k))
+        r = rng.random()
+        if r < 0.45: server.insert(rng.randint(0, len(server)), ('garbage',))
+        elif r < 0.7: server.insert(rng.randint(0, len(server)), ('badutf8',))
+        elif r < 0.85: server.append(rng.choice([('reply_unknown',), ('reply_noid',), ('dup', rng.choice(order))]))
+        else: server.append(('eof',))
+        if rng.random() < 0.4: clients.append([('await_disc',), ('rpc', True)])
     elif pid == 'C11':
         profile = rng.choice(PROFILES)
         nn = rng.randint(1, 4)
@@ -239,11 +291,16 @@ def gen_spec(rng, pid):
         if rng.random() < 0.5: clients.append(cons)
         else: clients[0] = clients[0] + cons
     d = dict(profile=profile, clients=clients, server=server, eager=eager)
+    if pid == 'C14':
+        d['base11'] = rng.random() < 0.75
     if pid == 'C04' and wf is not None:
         d['wfail'] = wf
     return d
 
 SMALL = {
+    'C14': [dict(profile='default', base11=True, clients=[[('rpc', True)], [('rpc', False)]], server=[('reply', 0), ('garbage',)], eager=False),
+            dict(profile='junos', base11=True, clients=[[('rpc', False), ('rpc', False)]], server=[('nonxml',), ('badutf8',)], eager=False),
+            dict(profile='default', base11=False, clients=[[('rpc', True)], [('rpc', True)]], server=[('nonxml',), ('reply', 1), ('reply_unknown',)], eager=False)],
     'C03': [dict(profile='default', clients=[[('rpc', True)], [('rpc', True)]], server=[('reply', 1), ('reply', 0)], eager=False),
             dict(profile='junos', clients=[[('rpc', False)], [('rpc', True)]], server=[('notif', 1), ('reply', 0), ('reply', 1)], eager=False),
             dict(profile='default', clients=[[('rpc', True)], [('rpc', True)]], server=[('reply', 0)], eager=True)],
@@ -297,9 +354,10 @@ def two_sessions_case():
         return 'session A took %r instead of its two notifications in order' % (xs,)
     return None
 
-def check(ctx, pid, n_random, dfs_bound, dfs_cap, corpus=()):
-    """Common body of the C03 / C04 / C11 plugins."""
+def check(ctx, pid, n_random, dfs_bound, dfs_cap, corpus=(), model=None):
+    """Common body of the C03 / C04 / C11 plugins (and of the session clause of C14, with its own LTS runner)."""
     oracle = ORACLES[pid]
+    lts_model = model if model is not None else ctx.model
     if pid == 'C11':
         f = two_sessions_case()
         ctx.count({'check': 'two_sessions'}, key='two_sessions')
@@ -315,9 +373,10 @@ def check(ctx, pid, n_random, dfs_bound, dfs_cap, corpus=()):
         spec = gen_spec(ctx.rng, pid)
         runs.append(run_case(spec, seed=ctx.rng.randrange(1 << 30)))
     calls = [model_call(sc) for sc in runs]
-    outs = ctx.model.batch(calls) if ctx.model else [None] * len(runs)
+    outs = lts_model.batch(calls) if lts_model else [None] * len(runs)
     for sc, mo in zip(runs, outs):
         case = describe(sc.spec, sc.decisions_used)
+        case['lts'] = pid
         labs = calls[runs.index(sc)][1] if False else None
         ctx.count(case, nontrivial=len(sc.rpcs) > 0, key=[sc.spec, sc.decisions_used])
         ctx.traces += 1
